@@ -5,9 +5,8 @@ Protocol:  new size=N off=K | malloc n | calloc count size | free idx=k | free o
 `free idx=k` gives back the k-th allocation result of the history (NULL results count), `free off=a`
 the address region+a, a bare `free` the NULL pointer.
 
-Excluded from every stream (library finding, see corpus/spool/defect_calloc_overflow.ops):
-calloc(count, size) whose mathematical product does not fit in size_t - the library wraps the
-product and hands out a block that is smaller than the request.
+calloc(count, size) with a product that does not fit in size_t is included (the library answers
+NULL since the overflow guard was added; corpus/spool/calloc_overflow.ops).
 """
 import itertools
 
@@ -117,13 +116,12 @@ class SpoolGen:
                         sz = rng.choice([0, 1, 1, 2, 3, 4, 5, 8, 8, 13, 16, remaining, max(remaining - 1, 0)])
                     before = sim.free
                     if rng.random() < 0.3:
-                        # calloc with a product that fits in size_t
                         if sz > 2**32:
-                            a, b = rng.choice([(1, sz), (sz, 1), (0, sz), (sz, 0)])
+                            a, b = rng.choice([(1, sz), (sz, 1), (0, sz), (sz, 0), (2**32, 2**32), (2**63, 2),
+                                               (2**63 + 1, 2), (SIZE_MAX, SIZE_MAX), (3, sz), (sz, 2)])
                         else:
                             d = rng.choice([1, 2, 4]) if sz % 4 == 0 and sz else 1
                             a, b = (d, sz // d) if rng.random() < 0.5 else (sz // d, d)
-                        assert a * b <= SIZE_MAX
                         ops.append(f"calloc {a} {b}")
                         sim.alloc(a * b)
                     else:
